@@ -1,5 +1,7 @@
 """C08 - a conditional distribution is its template evaluated at the dependence values."""
 
+import math
+
 import numpy as np
 from hypothesis import strategies as st
 
@@ -26,6 +28,10 @@ ASSUMPTIONS = [
 ]
 
 TEMPLATES = ["Weibull", "LogNormal", "Normal", "ExponentiatedWeibull", "GeneralizedGamma", "LogNormalNormFit", "VonMises", "ScipyGamma", "ScipyGenGamma"]
+
+
+# shapes a + g(x; b, c, ...): the first coefficient is an additive offset
+ADDITIVE_OFFSET = {"const1", "linear2", "poly3", "power3", "exp3", "logistics4", "asymdecrease3"}
 
 
 def eq(a, b, rtol=1e-13, atol=1e-15, extra=0.0):
@@ -178,6 +184,17 @@ def strat_case(draw, tier):
     lvl = draw(models.conditional_level(family, 0, 0.0, x1, allow_chain=True, nontrivial=draw(st.integers(0, 9)) > 0))
     gs = draw(st.lists(st.floats(0.0, 1.0).map(lambda u: float(round(u * x1, 6))), min_size=2, max_size=6, unique=True))
     qs = draw(st.lists(st.one_of(st.floats(0.01, 0.99), st.sampled_from([1e-6, 1e-3, 1 - 1e-3, 1 - 1e-6])), min_size=1, max_size=6))
+    if family == "VonMises":
+        # mean directions beyond one period (a dependence function extrapolates freely): the conditional law is the
+        # template at that very value, not at the value wrapped into [-pi, pi)
+        shift = draw(st.sampled_from([0.0, 0.0, 2 * math.pi + 0.3, -5.0, 9.0]))
+        if shift:
+            if "mu" in lvl["dependent"] and lvl["dependent"]["mu"]["shape"] in ADDITIVE_OFFSET and not lvl["dependent"]["mu"].get("use_defaults"):
+                d = dict(lvl["dependent"]["mu"])
+                d["coef"] = [float(d["coef"][0]) + shift] + list(d["coef"][1:])
+                lvl["dependent"]["mu"] = d
+            elif "mu" in lvl["fixed"]:
+                lvl["fixed"]["mu"] = float(lvl["fixed"]["mu"]) + shift
     return dict(
         level=lvl,
         gs=gs,
